@@ -206,6 +206,46 @@ def run(tier, seed):
         if not (common.close(a.misfit(x.copy()), b.misfit(x.copy()) / T, 1e-12, 0) and common.vclose(a.gradient(x.copy()), b.gradient(x.copy()) / T, 1e-12, 0)):
             se.disagree({"T": T}, "misfit/T", "differs", "temperature")
             findings.append(Finding("C13", "temperature does not divide misfit and gradient", {"kind": "temperature"}, {"T": T, "x": x.ravel().tolist()}))
+        # a Mixture with bounded components, evaluated where some component has zero density
+        dd = rnd.choice([1, 2])
+        kk = rnd.choice([2, 3])
+        cents = [rnd.uniform(-1, 1) + 4.0 * j for j in range(kk)]
+        comps = [D.Normal(np.full((dd, 1), c), 1.0, lower_bounds=np.full((dd, 1), c - 3.0), upper_bounds=np.full((dd, 1), c + 3.0)) for c in cents]
+        ww = np.array([rnd.uniform(0.2, 1.0) for _ in range(kk)])
+        ww = ww / ww.sum()
+        with quiet():
+            mixb = D.Mixture(comps, list(ww))
+        jin = rnd.randrange(kk)
+        xx = np.full((dd, 1), cents[jin] + rnd.choice([-1, 1]) * rnd.uniform(1.2, 2.8))      # inside component jin, outside (some of) the others
+        with np.errstate(all="ignore"):
+            mm = float(mixb.misfit(xx.copy()))
+            gg = np.array(mixb.gradient(xx.copy()), dtype=float)
+            pms = np.array([float(c.misfit(xx.copy())) for c in comps])
+            alive = np.isfinite(pms)
+            from scipy.special import logsumexp as _lse
+
+            em = -float(_lse(np.log(ww[alive]) - pms[alive]))
+            la = np.log(ww[alive]) - pms[alive]
+            pw = np.exp(la - la.max())
+            eg = sum(pi * np.array(c.gradient(xx.copy()), dtype=float) for pi, c in zip(pw, [c for c, a in zip(comps, alive) if a])) / pw.sum()
+        se.case({"kind": "mixture-bounded", "centres": cents, "weights": ww.tolist(), "x": xx.ravel().tolist()})
+        if not (common.close(mm, em, 1e-9, 1e-12) and np.all(np.isfinite(gg)) and common.vclose(eg.ravel().tolist(), gg, 1e-8, 1e-11)):
+            se.disagree({"centres": cents}, {"misfit": em, "gradient": eg.ravel().tolist()}, {"misfit": mm, "gradient": gg.ravel().tolist()}, "mixture with bounded components")
+            findings.append(Finding("C13", f"Mixture of bounded components at a point outside {int((~alive).sum())} of them: misfit {mm!r} (expected {em!r}), gradient {gg.ravel().tolist()} "
+                                    f"(expected the weighted mean over the components with non-zero density, {eg.ravel().tolist()})", {"kind": "mixture", "problem": "bounded components"},
+                                    {"centres": cents, "weights": ww.tolist(), "x": xx.ravel().tolist()}))
+        # two posteriors built from one list of parts are independent objects
+        lst = [D.Normal(np.zeros((dd, 1)), 1.0), D.Normal(np.ones((dd, 1)), 2.0)]
+        p1 = D.BayesRule(lst)
+        p2 = D.BayesRule(lst)
+        x0 = np.full((dd, 1), 0.3)
+        before = float(p1.misfit(x0.copy()))
+        p2.add_distribution(D.Normal(np.full((dd, 1), -1.0), 0.5))
+        se.case({"kind": "shared-list"})
+        if not (common.bits_equal(float(p1.misfit(x0.copy())), before) and len(lst) == 2):
+            se.disagree({"kind": "shared-list"}, before, float(p1.misfit(x0.copy())), "add_distribution on one posterior changed another / the caller's list")
+            findings.append(Finding("C13", f"add_distribution() on one BayesRule changed another BayesRule built from the same list (misfit {before!r} -> {float(p1.misfit(x0.copy()))!r}) "
+                                    f"and the caller's list (now {len(lst)} entries)", {"kind": "additive", "problem": "shared parts list"}, {"dimensions": dd}))
         # add_distribution
         dd = rnd.choice([1, 2, 3])
         n1 = distgen.leaf(rnd, dd, allow=("normaldiag", "laplace"), bounds_p=0.7)
